@@ -602,14 +602,22 @@ def evaluate_payload_template(input, context, template):
                 raise IntrinsicFailure(
                     "States.MathRandom failed, requires two or three arguments"
                 )
-            # The last argument controls the seed value and is optional.
-            if len(args) == 3:
-                # https://docs.python.org/3/library/random.html#random.seed
-                random.seed(args[2])
             if not is_integer(args[0]) or not is_integer(args[1]):
                 raise IntrinsicFailure(
                     "States.MathRandom failed, args[0] and args[1] must be integers."
                 )
+            if args[0] >= args[1]:
+                raise IntrinsicFailure(
+                    "States.MathRandom failed, args[0] must be less than args[1]."
+                )
+            # The last argument controls the seed value and is optional.
+            if len(args) == 3:
+                # https://docs.python.org/3/library/random.html#random.seed
+                if isinstance(args[2], (list, dict)):
+                    raise IntrinsicFailure(
+                        "States.MathRandom failed, the seed value must be a number or string."
+                    )
+                random.seed(args[2])
 
             # States.MathRandom has inclusive start and exclusive end number
             # https://docs.aws.amazon.com/step-functions/latest/dg/amazon-states-language-intrinsic-functions.html#asl-intrsc-func-math-operation
